@@ -155,6 +155,11 @@ func execute(t *testing.T, sc *Scenario, seed uint64, feed []int32, useFeed bool
 			s.rootGoid = goid()
 			s.start = time.Now()
 			simrt.Hook = nil
+			s.selSalt = splitmix(seed ^ 0x5e1ec7)
+			if s.selSalt%4 == 0 {
+				s.selSalt = 0
+			}
+			simrt.SelHook = s.selOrder
 			rand.Seed(int64(seed)) // global math/rand is used by dskit (needs GODEBUG=randseednop=0)
 			func() {
 				defer func() {
@@ -199,6 +204,7 @@ func (s *Sim) finish() {
 	}
 	synctest.Wait()
 	simrt.Hook = nil
+	simrt.SelHook = nil
 }
 
 func (s *Sim) TraceHash() string { return fmt.Sprintf("%016x", s.hash) }
